@@ -142,13 +142,13 @@ func c19Oracle(x float64, v map[string]float64) string {
 
 const c19Script = `title: A
 ---
-<<call cap(floor($x), ceil($x), inc($x), dec($x), integer($x), decimal($x), round($x), number(string($x)), round_places($x,0), round_places($x,1), round_places($x,2), round_places($x,3), round_places($x,4), round_places($x,5), round_places($x,6), round_places($x,7), round_places($x,8), floor($y), ceil($y), round($y), integer($y))>>
+<<call cap(floor($x), ceil($x), inc($x), dec($x), integer($x), decimal($x), round($x), number(string($x)), round_places($x,0), round_places($x,1), round_places($x,2), round_places($x,3), round_places($x,4), round_places($x,5), round_places($x,6), round_places($x,7), round_places($x,8), floor($y), ceil($y), round($y), integer($y), -number(2.5), number(-0.75), -number(number(4)), round_places(-number(1.235), 2))>>
 sep
 <<jump A>>
 ===
 `
 
-var c19Names = []string{"floor", "ceil", "inc", "dec", "integer", "decimal", "round", "roundtrip", "rp0", "rp1", "rp2", "rp3", "rp4", "rp5", "rp6", "rp7", "rp8", "floorY", "ceilY", "roundY", "integerY"}
+var c19Names = []string{"floor", "ceil", "inc", "dec", "integer", "decimal", "round", "roundtrip", "rp0", "rp1", "rp2", "rp3", "rp4", "rp5", "rp6", "rp7", "rp8", "floorY", "ceilY", "roundY", "integerY", "negNumberLit", "numberNegLit", "negNumberNumber", "rpNegNumber"}
 
 func runC19(ctx *report.Ctx) {
 	values := c19Values()
@@ -216,6 +216,17 @@ func runC19(ctx *report.Ctx) {
 		}
 		ctx.OutcomeHash(math.Float64bits(v["round"]-x) ^ math.Float64bits(v["rp2"]-x)<<1)
 		d := c19Oracle(x, v)
+		if d == "" {
+			// number of a value that already is a number returns it unchanged - on every execution of the statement
+			for name, want := range map[string]float64{"negNumberLit": -2.5, "numberNegLit": -0.75, "negNumberNumber": -4} {
+				if v[name] != want {
+					d = fmt.Sprintf("%s: the constant expression gave %v on this execution of the statement, %v expected (-number(2.5), number(-0.75), -number(number(4)))", name, v[name], want)
+				}
+			}
+			if r := v["rpNegNumber"]; d == "" && math.Abs(r-(-1.24)) > 0.006 {
+				d = fmt.Sprintf("round_places(-number(1.235), 2) = %v on this execution of the statement", r)
+			}
+		}
 		if d == "" {
 			// the calls on y, by the same contracts
 			vy := map[string]float64{"floor": v["floorY"], "ceil": v["ceilY"], "round": v["roundY"], "integer": v["integerY"]}
